@@ -6,12 +6,18 @@ package main
 import (
 	"encoding/json"
 	"fmt"
+	"go/constant"
+	"go/token"
+	"go/types"
+	"math"
 	"math/big"
+	"math/rand"
 	"strconv"
 	"time"
 
 	"github.com/google/uuid"
 
+	"github.com/99designs/gqlgen/codegen/templates"
 	"github.com/99designs/gqlgen/graphql"
 
 	"verifharness/vlib"
@@ -61,6 +67,11 @@ func carriersOf(v *Val, rep string) []carried {
 		if f, ok := exactFloat(text); ok {
 			out = append(out, carried{"float64", f})
 		}
+	case "fx": // rep is one spelling of the named float
+		out = append(out, carried{"json.Number", json.Number(rep)})
+		if f, err := strconv.ParseFloat(rep, 64); err == nil {
+			out = append(out, carried{"float64", f})
+		}
 	case "nstr":
 		out = append(out, carried{"string", rep})
 	case "str":
@@ -85,6 +96,10 @@ func sameGot(want *Val, rep string, got any) bool {
 		f, ok := got.(float64)
 		w, _ := strconv.ParseFloat(text, 64)
 		return ok && f == w
+	case "fx":
+		f, ok := got.(float64)
+		w, _ := strconv.ParseFloat(rep, 64)
+		return ok && f == w
 	case "nstr":
 		s, ok := got.(string)
 		return ok && s == rep
@@ -108,6 +123,9 @@ func runGrid(c *vlib.Check, grid []*GridCell) {
 		reps := []string{""}
 		if cell.Val.C != "" {
 			reps = classReps[cell.Val.C]
+		}
+		if cell.Val.T == "fx" {
+			reps = fxReps[cell.Val.C]
 		}
 		for _, rep := range reps {
 			for _, ca := range carriersOf(cell.Val, rep) {
@@ -181,4 +199,95 @@ func runGrid(c *vlib.Check, grid []*GridCell) {
 	}
 	m += 6
 	c.AddEvals(int64(m))
+}
+
+// runDumpGrid drives codegen/templates.Dump - the function the generator uses to write a schema
+// default (input field defaults, arguments of directives applied in the schema) into Go source - over
+// float64 values: the specification's named floats, the floats of the schema, and seed-derived ones.
+// The text is evaluated as the Go expression it will be in the generated file, in an `any` context
+// (asMap[k] = <text>; unmarshal(ctx, <text>)): it must be a float64 there and the same number.
+// Inf / NaN cannot be written in SDL and are not produced.
+func runDumpGrid(c *vlib.Check, sch *Schema) {
+	type in struct {
+		f    float64
+		from string
+	}
+	var ins []in
+	for _, n := range sch.Floats {
+		f, _ := strconv.ParseFloat(fxReps[n][0], 64)
+		ins = append(ins, in{f, "named float " + n + " = " + fxReps[n][0]}, in{-f, "named float -" + n})
+	}
+	for _, f := range []float64{0, 5, 1, -7, 100000, 1e6, 1e21, 1.5, 2.5, 0.000001, 0.0000005, 123456789.125, math.MaxFloat64, math.SmallestNonzeroFloat64, 1 << 53, 1<<53 + 2} {
+		ins = append(ins, in{f, "fixed"})
+	}
+	rnd := rand.New(rand.NewSource(vlib.Seed()*7919 + 2))
+	for len(ins) < 600 {
+		var f float64
+		switch rnd.Intn(4) {
+		case 0: // any finite bit pattern
+			f = math.Float64frombits(rnd.Uint64())
+		case 1: // a decimal with up to 12 decimals, as somebody would write a default
+			f, _ = strconv.ParseFloat(strconv.FormatFloat(rnd.Float64()*math.Pow10(rnd.Intn(7)), 'f', rnd.Intn(13), 64), 64)
+		case 2: // integral
+			f = float64(rnd.Int63n(1 << 40))
+		default: // scientific
+			f, _ = strconv.ParseFloat(fmt.Sprintf("%de%d", 1+rnd.Intn(9), rnd.Intn(600)-320), 64)
+		}
+		if math.IsInf(f, 0) || math.IsNaN(f) {
+			continue
+		}
+		ins = append(ins, in{f, "seed-derived"})
+	}
+	n, changed6, reportedSix, reportedOther := 0, 0, false, 0
+	for _, x := range ins {
+		n++
+		var text string
+		var pan any
+		func() {
+			defer func() { pan = recover() }()
+			text = templates.Dump(x.f)
+		}()
+		want := strconv.FormatFloat(x.f, 'g', -1, 64)
+		replay := map[string]any{"kind": "grid", "target": "templates.Dump", "value": want}
+		if pan != nil {
+			c.Violate("dump:panic:float64", fmt.Sprintf("templates.Dump(float64 %s) panics: %v", want, pan), replay)
+			continue
+		}
+		tv, err := types.Eval(token.NewFileSet(), nil, token.NoPos, text)
+		kind := "invalid"
+		var got float64
+		if err == nil && tv.Value != nil {
+			if b, ok := tv.Type.(*types.Basic); ok {
+				switch types.Default(b).(*types.Basic).Kind() {
+				case types.Float64:
+					kind = "float64"
+				case types.Int:
+					kind = "int"
+				default:
+					kind = b.String()
+				}
+			}
+			got, _ = constant.Float64Val(constant.ToFloat(tv.Value))
+		}
+		c.Class(fmt.Sprintf("dump/%s/%s/changed-by-6-decimals=%v", x.from[:min(len(x.from), 5)], kind, sixDecimals(x.f) != x.f))
+		switch {
+		case kind == "float64" && got == x.f:
+		case kind == "float64" && got == sixDecimals(x.f):
+			changed6++
+			if !reportedSix {
+				reportedSix = true
+				c.Violate(treatFixed(keyDump6), fmt.Sprintf("templates.Dump(float64 %s) [%s] = %q, which is the number %s in the generated Go source: a Float default written into generated code keeps 6 decimals",
+					want, x.from, text, strconv.FormatFloat(got, 'g', -1, 64)), replay)
+			}
+		default:
+			if reportedOther < 3 {
+				reportedOther++
+				c.Violate("dump:float64:"+kind, fmt.Sprintf("templates.Dump(float64 %s) [%s] = %q: in an `any` context of the generated Go source this is %s %s, not the float64 %s",
+					want, x.from, text, kind, strconv.FormatFloat(got, 'g', -1, 64), want), replay)
+			}
+		}
+	}
+	c.AddEvals(int64(n))
+	c.Set("dump_evaluations", n)
+	c.Set("dump_changed_by_6_decimals", changed6)
 }
